@@ -932,4 +932,61 @@ theorem wellKinded_inbounds (K : Kernel) (h : K.wellKinded = true) (σ : State) 
   have := kinds_sound K [] h σ hσ fuel site hr
   simp at this
 
+/-! ### inputs -/
+
+theorem Kind.memB_sound {dims : Nat → Nat} {k : Kind} {v : Int} (h : k.memB dims v = true) : k.mem dims v := by
+  obtain ⟨lo, hi⟩ := k
+  simp only [Kind.memB, Bool.and_eq_true] at h
+  obtain ⟨h1, h2⟩ := h
+  constructor
+  · intro c hc
+    simp only at hc
+    subst hc
+    simpa using h1
+  · intro d c hc
+    simp only at hc
+    subst hc
+    simpa using h2
+
+/-- The decidable check on concrete inputs implies the invariant `Sat` on the initial state of the kernel,
+    for every oracle. -/
+theorem Inputs.satisfies_sound {Γ : Env} {inp : Inputs} (h : inp.satisfies Γ = true) (orc : Nat → Nat → Int) :
+    Sat Γ (inp.state orc) := by
+  simp only [Inputs.satisfies, Bool.and_eq_true, beq_iff_eq, List.all_eq_true] at h
+  obtain ⟨⟨h0, hsc⟩, harr⟩ := h
+  have hall : ∀ a, inp.arrOk Γ a = true := by
+    intro a
+    by_cases ha : a < Γ.arrs.length
+    · exact harr a (List.mem_range.2 ha)
+    · have hd : Γ.arr a = ArrInfo.dyn := by
+        simp only [Env.arr]
+        rw [List.getD_eq_getElem?_getD, List.getElem?_eq_none (by omega)]
+        rfl
+      simp [Inputs.arrOk, hd, ArrInfo.dyn, Kind.memB, Kind.any]
+  refine ⟨h0, ?_, ?_, ?_⟩
+  · intro x v hv
+    simp only [Inputs.state, Option.map_eq_some_iff] at hv
+    obtain ⟨p, hp, rfl⟩ := hv
+    have hmem := List.mem_of_find?_eq_some hp
+    have hpx := List.find?_some hp
+    simp only [beq_iff_eq] at hpx
+    have := Kind.memB_sound (hsc p hmem)
+    rw [hpx] at this
+    exact this
+  · intro a d c hsz
+    have := hall a
+    simp only [Inputs.arrOk, hsz, Bool.and_eq_true, decide_eq_true_eq] at this
+    exact this.1
+  · intro a v hv
+    have := hall a
+    simp only [Inputs.arrOk, Bool.and_eq_true, List.all_eq_true] at this
+    exact Kind.memB_sound (this.2 v hv)
+
+/-- **Well-kinded kernels stay within their buffers on every input that satisfies the declared shapes**:
+    for every oracle (floating comparisons, container orders, `rand()`), every step budget. -/
+theorem kinds_sound_inputs (K : Kernel) (ill : List Nat) (h : K.checkWith ill = true) (inp : Inputs)
+    (hin : inp.satisfies K.env = true) (orc : Nat → Nat → Int) (fuel : Nat) (site : Nat)
+    (hr : exec fuel K.body (inp.state orc) = .err (.oob site)) : site ∈ ill :=
+  kinds_sound K ill h (inp.state orc) (Inputs.satisfies_sound hin orc) fuel site hr
+
 end SkNet.IR
